@@ -57,9 +57,7 @@ theorem appliedEvents_idx (b : Block) : ∀ e ∈ appliedEvents b, e.idx = b.idx
         apply foldl_idx b.idx _ _ _ _ h
         intro acc si h
         split
-        · split
-          · exact addEvent_idx _ _ _ _ _ _ _ h
-          · exact h
+        · exact payout_idx _ _ _ _ h
         · exact h
       simp only
       split <;> exact addEvent_idx _ _ _ _ _ _ _ hc
@@ -382,7 +380,6 @@ theorem stored_eq_view (c : List Block) (hv : LedgerChainValid (fun _ => none) c
 
 /-! ### the balance equation -/
 
-def sumE (es : List Elem) : Nat := (es.map (·.value)).sum
 def netIn (evs : List Event) : Nat := (evs.map (·.inflow)).sum
 def netOut (evs : List Event) : Nat := (evs.map (·.outflow)).sum
 
@@ -530,6 +527,176 @@ theorem balance_chain (ids : List Nat) (hn : ids.Nodup) :
     unfold Accounted at hacc
     rw [← ht']
     omega
+
+/-! ### the events of a coherent block account for its diffs -/
+
+/-- "the events so far record `I` of inflow and `O` of outflow, up to events that were dropped
+because their inflow equals their outflow" -/
+def Net (acc : List Event) (I O : Nat) : Prop := netIn acc + O = netOut acc + I
+
+theorem net_addEvent (idx : Nat) (acc : List Event) (id : Nat) (k : Kind) (i o m I O : Nat) (h : Net acc I O) :
+    Net (addEvent idx acc id k i o m) (I + i) (O + o) := by
+  unfold addEvent Net at *
+  split
+  · omega
+  · simp only [netIn, netOut, List.map_append, List.sum_append, List.map_cons, List.map_nil, List.sum_cons, List.sum_nil] at *
+    omega
+
+theorem net_foldl {α} (f : List Event → α → List Event) (gi go : α → Nat) (l : List α)
+    (hf : ∀ x ∈ l, ∀ acc I O, Net acc I O → Net (f acc x) (I + gi x) (O + go x))
+    (acc : List Event) (I O : Nat) (h : Net acc I O) :
+    Net (l.foldl f acc) (I + (l.map gi).sum) (O + (l.map go).sum) := by
+  induction l generalizing acc I O with
+  | nil => simpa using h
+  | cons x l ih =>
+    have h1 := hf x (List.mem_cons_self ..) acc I O h
+    have h2 := ih (fun y hy => hf y (List.mem_cons_of_mem _ hy)) _ _ _ h1
+    simp only [List.foldl_cons, List.map_cons, List.sum_cons]
+    have e1 : I + (gi x + (l.map gi).sum) = I + gi x + (l.map gi).sum := by omega
+    have e2 : O + (go x + (l.map go).sum) = O + go x + (l.map go).sum := by omega
+    rw [e1, e2]; exact h2
+
+theorem sum_map_ite {α} (l : List α) (p : α → Bool) (f : α → Nat) :
+    (l.map fun x => if p x then f x else 0).sum = ((l.filter p).map f).sum := by
+  induction l with
+  | nil => rfl
+  | cons x l ih =>
+    simp only [List.map_cons, List.sum_cons, List.filter_cons, ih]
+    cases p x <;> simp
+
+theorem sum_map_zero {α} (l : List α) : (l.map fun _ => 0).sum = 0 := by
+  induction l with
+  | nil => rfl
+  | cons x l ih => simpa using ih
+
+theorem net_payout (b : Block) (k : Kind) (acc : List Event) (id I O : Nat) (h : Net acc I O) :
+    Net (payout b k acc id) (I + elemValue b id) O := by
+  cases hl : lookup b.diffs id with
+  | none => simpa [payout, elemValue, hl] using h
+  | some sce => simpa [payout, elemValue, hl] using net_addEvent b.idx acc id k sce.value 0 sce.maturity I O h
+
+theorem net_payoutIfOwn (b : Block) (k : Kind) (acc : List Event) (id I O : Nat) (h : Net acc I O) :
+    Net (payoutIfOwn b k acc id) (I + ownValue b id) O := by
+  cases hl : lookup b.diffs id with
+  | none => simpa [payoutIfOwn, ownValue, hl] using h
+  | some sce =>
+    cases ho : sce.own with
+    | false => simpa [payoutIfOwn, ownValue, hl, ho] using h
+    | true => simpa [payoutIfOwn, ownValue, hl, ho] using net_addEvent b.idx acc id k sce.value 0 sce.maturity I O h
+
+theorem net_claimEvents (b : Block) (t : Txn) (acc : List Event) (I O : Nat) (h : Net acc I O) :
+    Net (claimEvents b acc t) (I + claimSum b t) O := by
+  have := net_foldl (fun acc (si : SfIn) => if si.claimOwn then payout b .claim acc si.claimId else acc)
+    (fun si : SfIn => if si.claimOwn then elemValue b si.claimId else 0) (fun _ => 0) t.sfins
+    (fun si _ acc I O h => by
+      cases hc : si.claimOwn with
+      | false => simpa [hc] using h
+      | true => simpa [hc] using net_payout b .claim acc si.claimId I O h) acc I O h
+  rw [sum_map_ite, sum_map_zero] at this
+  simpa [claimEvents, claimSum] using this
+
+theorem not_any_filter {α} (l : List α) (p : α → Bool) (h : l.any p = false) : l.filter p = [] := by
+  rw [List.filter_eq_nil_iff]; intro x hx
+  have := List.any_eq_false.mp h x hx
+  simpa using this
+
+/-- a transaction the relevance filter skips neither pays nor takes anything -/
+theorem irrelevant_zero (b : Block) (hc : v1InsCoherent b = true) (t : Txn) (ht : t ∈ b.txns) (hr : relevant t = false) :
+    claimSum b t = 0 ∧ sumOwnOuts t = 0 ∧ txnOutflow b t = 0 := by
+  unfold relevant at hr
+  simp only [Bool.or_eq_false_iff] at hr
+  obtain ⟨⟨ho, hi⟩, hs⟩ := hr
+  refine ⟨?_, ?_, ?_⟩
+  · simp [claimSum, not_any_filter _ _ hs]
+  · simp [sumOwnOuts, not_any_filter _ _ ho]
+  · unfold txnOutflow
+    split
+    · simp [v2Outflow, not_any_filter _ _ hi]
+    · rename_i hv2
+      unfold v1Outflow
+      have hall : ∀ i ∈ t.ins, ownValue b i.id = 0 := by
+        intro i hi'
+        have hown : i.own = false := by
+          have := List.any_eq_false.mp hi i hi'; simpa using this
+        unfold v1InsCoherent at hc
+        have h1 := List.all_eq_true.mp hc t ht
+        have hv : t.v2 = false := by simpa using hv2
+        simp only [hv, Bool.false_or, List.all_eq_true] at h1
+        have h2 := h1 i hi'
+        unfold ownValue
+        cases hl : lookup b.diffs i.id with
+        | none => rfl
+        | some se =>
+          rw [hl] at h2
+          have : se.own = false := by simpa [hown] using h2
+          simp [this]
+      rw [List.map_congr_left hall, sum_map_zero]
+
+theorem net_txnEvents (b : Block) (hc : v1InsCoherent b = true) (t : Txn) (ht : t ∈ b.txns)
+    (acc : List Event) (I O : Nat) (h : Net acc I O) :
+    Net (txnEvents b acc t) (I + (claimSum b t + sumOwnOuts t)) (O + txnOutflow b t) := by
+  unfold txnEvents
+  split
+  · rename_i hr
+    have hz := irrelevant_zero b hc t ht (by simpa using hr)
+    rw [hz.1, hz.2.1, hz.2.2]; simpa using h
+  · have h1 := net_claimEvents b t acc I O h
+    simp only
+    unfold txnOutflow
+    split
+    · have := net_addEvent b.idx _ t.id .v2txn (sumOwnOuts t) (v2Outflow t) b.height _ _ h1
+      simpa [Nat.add_assoc] using this
+    · have := net_addEvent b.idx _ t.id .v1txn (sumOwnOuts t) (v1Outflow b t) b.height _ _ h1
+      simpa [Nat.add_assoc] using this
+
+theorem net_res1Events (b : Block) (r : Res1) (acc : List Event) (I O : Nat) (h : Net acc I O) :
+    Net (res1Events b acc r) (I + ((r.outs.filter (·.1)).map fun o => elemValue b o.2).sum) O := by
+  unfold res1Events
+  have := net_foldl (fun acc (o : Bool × Nat) => if o.1 then payout b .v1res acc o.2 else acc)
+    (fun o => if o.1 then elemValue b o.2 else 0) (fun _ => 0) r.outs
+    (by
+      intro o _ acc I O h
+      cases ho : o.1 with
+      | false => simpa [ho] using h
+      | true => simpa [ho] using net_payout b .v1res acc o.2 I O h) acc I O h
+  rw [sum_map_ite, sum_map_zero] at this
+  simpa using this
+
+/-- **the events of a block record exactly what its contents pay to and take from the wallet** -/
+theorem net_appliedEvents (b : Block) (hc : v1InsCoherent b = true) :
+    Net (appliedEvents b) (paid b) (taken b) := by
+  unfold appliedEvents paid taken
+  simp only
+  have h0 : Net [] 0 0 := by simp [Net, netIn, netOut]
+  have h1 := net_foldl (txnEvents b) (fun t => claimSum b t + sumOwnOuts t) (txnOutflow b) b.txns
+    (fun t ht acc I O h => net_txnEvents b hc t ht acc I O h) [] 0 0 h0
+  have h2 := net_foldl (res1Events b) (fun r => ((r.outs.filter (·.1)).map fun o => elemValue b o.2).sum) (fun _ => 0) b.res1
+    (fun r _ acc I O h => by simpa using net_res1Events b r acc I O h) _ _ _ h1
+  have h3 := net_foldl (res2Events b) (fun r => ownValue b r.hostId + ownValue b r.renterId) (fun _ => 0) b.res2
+    (fun r _ acc I O h => by
+      have := net_payoutIfOwn b .v2res _ r.renterId _ _ (net_payoutIfOwn b .v2res acc r.hostId I O h)
+      simpa [res2Events, Nat.add_assoc] using this) _ _ _ h2
+  have h4 := net_foldl (fun acc (m : Bool × Nat) => if m.1 then payout b .miner acc m.2 else acc)
+    (fun m => if m.1 then elemValue b m.2 else 0) (fun _ => 0) b.miners
+    (fun m _ acc I O h => by
+      cases hm : m.1 with
+      | false => simpa [hm] using h
+      | true => simpa [hm] using net_payout b .miner acc m.2 I O h) _ _ _ h3
+  have h5 := net_payoutIfOwn b .foundation _ b.foundationId _ _ h4
+  rw [sum_map_ite] at h5
+  simp only [sum_map_zero, Nat.add_zero, Nat.zero_add] at h5
+  exact h5
+
+/-- a coherent block is accounted: its events record, in total, exactly what its diffs create for
+and spend from the wallet -/
+theorem accounted_of_coherent (b : Block) (h : BlockCoherent b) : Accounted b := by
+  unfold BlockCoherent coherent at h
+  simp only [Bool.and_eq_true, decide_eq_true_eq] at h
+  obtain ⟨⟨hc, hs⟩, hi⟩ := h
+  have hn := net_appliedEvents b hi
+  unfold Net at hn
+  unfold Accounted
+  omega
 
 theorem total_init (ids : List Nat) : total Store.init ids = 0 := by
   induction ids with
